@@ -70,6 +70,16 @@ CLAIMS = {
   "Trusted: go/types constant evaluation, Go's html.UnescapeString, x/image/colornames, the transcribed lists in checker/internal/ref. "
   "Not covered: that each table entry is exercised through the public minifier (dynamic).",
   "DESIGN.md §4 C17"),
+ "C19": ("other",
+  "path rules on the CFG of cmd/minify (fallback rebinding, loop-exit and counter rules), provenance classification of path arguments of mutating os calls, writer/reader agreement of the backup name",
+  "Decides (R19.1-R19.5, DESIGN.md §4 C19): a failed minification writes the original bytes and reports failure; task loops never stop early, failures are counted, summed over workers and decide the exit status; only destinations and backups are ever mutated; "
+  "the JS bundle separator is confined to the JS media type; the overwrite backup is created under the name it is later removed by. Destination computation over directory trees, sync copying and watch mode are not decided.",
+  OTHER_NOTE, "DESIGN.md §4 C19"),
+ "C20": ("other",
+  "ordering / domination / must-pass-through rules on the CFG of cmd/minify.minify (function literals attributed to their try.Do call site), provenance classification of mutated paths",
+  "Decides the ordering invariant behind kill-safety (R20.1-R20.5, DESIGN.md §4 C20): backup rename (error tested) before the only truncating open, inputs opened before the output, backup removed only after Close and only when the copy's own error is nil, otherwise restored; "
+  "every mutating os call targets the destination or the backup; the backup's creation name equals its recognition name. Kill points are prefixes of this one function's call sequence; power loss (fsync) is out of scope of the property.",
+  OTHER_NOTE, "DESIGN.md §4 C20"),
 }
 
 NOT_APPLICABLE = {
